@@ -622,6 +622,39 @@ def run(pid, tier, replay=None):
                 t = atraces[t_id - 1]
                 chk.violation(clause, {"peer_book_change": t["variant"], "before_line_stop": t["k"], "of": t["of"], "observed": {k2: t[k2] for k2 in ("raised", "stored", "served", "stayers_got")}},
                               {"clause": clause})
+        # ---- the request handler reads the pending pool while the network thread admits a transaction (MinerView): design level, then
+        #      the request handler stopped before every line it executes in mining.py / consensus.py with an admission at each stop; the
+        #      candidate is then mined and the found block judged by TraceNode like any other (reward = subsidy + fees of what it contains)
+        for (cp_, expect) in ((True, None), (False, "I_C12_RewardCountsIncludedFees")):
+            rv_ = tracecheck.model("MinerView", "Spec", {"Fee": [1, 2], "CopyOnGet": cp_}, invariants=["I_C12_RewardCountsIncludedFees"], workers=2, timeout=300)
+            tlc.require_clean(rv_, "MinerView")
+            chk.add_tlc("MinerView CopyOnGet=%s (candidate assembly in two reads of the pool against an admission)" % cp_, rv_, expect_violation=expect)
+            if (expect is None) != (not rv_.violated):
+                return machinery_failure(pid, "MinerView CopyOnGet=%s: unexpected %s" % (cp_, rv_.violated))
+        vtraces, vlabels, nfound = [], [], 0
+        for nonce_ in (5, 6, 7) if quick else range(5, 15):
+            def make_view(nonce_=nonce_):
+                w_, g_, blocks_, txs_ = build_universe(cfg, keys)
+                run2 = node_drv.NodeRun(w_, g_, peers=["p"], tid=900000 + len(vtraces) + 1, clock0=5000)
+                run2.deliver_block("p", blocks_[1])
+                run2.deliver_tx("p", txs_[1001])
+                run2.miner()
+                import skepticoin.mining as mining_
+                mining_.print = lambda *a, **k: None
+                return {"a": lambda: run2.mine_request(nonce_), "b": lambda: run2.deliver_tx("p", txs_[1002]),
+                        "observe": lambda: (run2.mine_output(label={"admission_during_request": True}), run2.trace())[1], "close": run2.close}
+            for (k_, n_, blocked, tr_, errs) in preempt.explore(make_view, ("skepticoin/mining.py", "skepticoin/consensus.py")):
+                tr_["id"] = 900000 + len(vtraces) + 1
+                if any(e["op"] == "mine" for e in tr_["events"]):
+                    nfound += 1
+                vtraces.append(tr_)
+                vlabels.append([["admission_before_line_stop", k_, n_, "nonce", nonce_]])
+                chk.case(("view", nonce_, k_), nontrivial=True)
+        chk.extra["request_handler_vs_admission"] = {"preemption_runs": len(vtraces), "of_which_found_a_block": nfound}
+        if nfound < 20:
+            return machinery_failure(pid, "request-handler exploration found only %d blocks" % nfound)
+        for k in range(0, len(vtraces), 120):
+            judge(chk, vtraces[k:k + 120], vlabels[k:k + 120], consts)
         # ---- the broadcast of a found block comes from the miner's thread: the connection's send queue under two threads (SendPath)
         from checks import sendpath
         rc = sendpath.stage_threads(chk, quick, rng, pid)
